@@ -309,6 +309,17 @@ fn commit_staging_dir_impl(
     Ok(())
 }
 
+/// Verification hook (off unless built with `--cfg quantus_network_qp_zk_circuits_verif`):
+/// public entry to [`commit_staging_dir_impl`] with the same injectable rename.
+#[cfg(quantus_network_qp_zk_circuits_verif)]
+pub fn verif_commit_staging_dir_impl(
+    staging_dir: &Path,
+    output_dir: &Path,
+    rename: impl Fn(&Path, &Path) -> std::io::Result<()>,
+) -> Result<()> {
+    commit_staging_dir_impl(staging_dir, output_dir, rename)
+}
+
 #[cfg(test)]
 mod tests {
     use super::*;
